@@ -19,6 +19,8 @@ type vObs struct {
 	res      int
 	panicked bool
 	diverted bool
+	restNil  bool // the callback got a nil variadic slice
+	wrote    int  // what the caller finds in its own slice after the callback wrote rest[0]
 }
 
 var vC19Seen vObs
@@ -28,8 +30,10 @@ func vC19Cb(a int, rest ...int) int {
 	vC19Seen.calls++
 	vC19Seen.a = a
 	vC19Seen.nrest = len(rest)
+	vC19Seen.restNil = rest == nil
 	if len(rest) > 0 {
 		vC19Seen.rest0 = rest[0]
+		rest[0] = 4242 // visible to a caller that spread its own slice: f(a, xs...)
 	}
 	if a == 77 {
 		panic("callback panics on 77")
@@ -69,6 +73,10 @@ func vC19Run2(console, level, console2, level2 int, stub bool, a int, rest []int
 		}
 	}()
 	o.calls, o.a, o.nrest, o.rest0 = vC19Seen.calls, vC19Seen.a, vC19Seen.nrest, vC19Seen.rest0
+	o.restNil = vC19Seen.restNil
+	if len(rest) > 0 {
+		o.wrote = rest[0]
+	}
 	b.Reset()
 	o.diverted = vDiverted(vC19F)
 	return o
@@ -92,12 +100,16 @@ func vC19Compare(stub bool, id string) {
 		rest = []int{5} // the stub's condition is When(a, 5)
 	}
 	// run 1: logging off (console below debug, level below trace)
+	// (each run gets its own copy of the caller's slice: the callback writes into it)
+	rest2 := make([]int, len(rest))
+	copy(rest2, rest)
 	off := vC19Run(logger.WarningLevel, logger.InfoLevel, stub, a, rest)
 	// run 2: an arbitrary logging configuration (covers OpenDebug, OpenTrace, GOOM_DEBUG)
 	// (the configuration may also change between Apply and the calls: OpenDebug ... CloseDebug)
-	on := vC19Run2(verifInt("console2"), verifInt("level2"), verifInt("console3"), verifInt("level3"), stub, a, rest)
+	on := vC19Run2(verifInt("console2"), verifInt("level2"), verifInt("console3"), verifInt("level3"), stub, a, rest2)
 	verifAssert(off.calls == on.calls, id+".same-call-count")
 	verifAssert(off.a == on.a && off.nrest == on.nrest && off.rest0 == on.rest0, id+".same-arguments-seen")
+	verifAssert(off.restNil == on.restNil && off.wrote == on.wrote, id+".same-variadic-slice-handed-over")
 	verifAssert(off.panicked == on.panicked, id+".same-panics")
 	verifAssert(off.res == on.res, id+".same-results")
 	verifAssert(!off.diverted && !on.diverted, id+".reset-restores")
@@ -208,8 +220,10 @@ func VC_C19_api_toggles() {
 	vEnv()
 	vPristine(vC19F)
 	a := verifInt("a")
-	rest := []int{verifInt("rest0")}
+	r0 := verifInt("rest0")
+	rest := []int{r0}
 	off := vC19Run(logger.WarningLevel, logger.InfoLevel, false, a, rest)
+	rest = []int{r0} // the callback wrote into the first run's slice
 	// run 2 under the switches
 	logger.ConsoleLevel, logger.LogLevel = logger.WarningLevel, logger.InfoLevel
 	vC19Toggle("toggleBefore")
